@@ -1,4 +1,7 @@
 """C14 — hy2py output is valid Python: necessary conditions for ast.unparse to succeed and re-parse."""
+CANON = True
+STRICT = {"H2P-SAME", "R-ID-MANGLE", "O0", "OUTERVAR-CLOSED"}
+
 import ast
 
 from .. import compq, core, pyq
